@@ -32,16 +32,21 @@ def _batch(ctx, n, N, const_b=False):
 def _eq_all(ctx, X, Y):
     X, Y = geo.tolist(X), geo.tolist(Y)
 
-    def rec(x, y):
+    def flat(x):
         if isinstance(x, list):
-            assert len(x) == len(y)
             out = []
-            for u, v in zip(x, y):
-                out += rec(u, v)
+            for u in x:
+                out += flat(u)
             return out
-        return [ctx.zero(x - y, scale=None if ctx.symbolic else abs(x) + abs(y))]
+        return [x]
 
-    return ctx.conj(rec(X, Y))
+    fx, fy = flat(X), flat(Y)
+    assert len(fx) == len(fy), (len(fx), len(fy))
+    if ctx.symbolic:
+        return ctx.conj([ctx.zero(x - y) for x, y in zip(fx, fy)])
+    # numeric replay: one scale for the whole array (entries that should vanish carry rounding errors of the large ones)
+    scale = 1e-9 + max([abs(complex(v)) for v in fx + fy] + [0.0])
+    return ctx.conj([ctx.zero(x - y, scale=scale) for x, y in zip(fx, fy)])
 
 
 # --------------------------------------------------------------------------------------------- det
@@ -290,3 +295,52 @@ def roots_triple(ctx):
     p = [a, -3 * a * r, 3 * a * r * r, -a * r * r * r]
     x = um.roots(p)
     ctx.ensure("triple-root-returned", ctx.conj([len(x) >= 1] + [ctx.zero(v - r, scale=None if ctx.symbolic else 1 + abs(r)) for v in x]))
+
+
+@case("C20", "kernels.numeric.lattice", [], kind="bounded", functions=["geometer.utils.math.roots", "geometer.utils.math.inv", "geometer.utils.math.det", "geometer.utils.math.adjugate",
+                                                                       "geometer.utils.math.null_space", "geometer.utils.math.orth"],
+      bound="cubics a(x-r1)(x-r2)(x-r3) with roots in {-2,-1,0,1,3/2,3} (all multiplicity patterns) and complex pairs, a in {1,-2,1/2}; inv/det/adjugate on batches of 63 and 64 "
+            "matrices of size 2-4 incl. well-conditioned matrices with |det| ~ 1e-9; null_space/orth of integer matrices of rank 1..3")
+def kernels_numeric(ctx):
+    import geometer.utils.math as um
+
+    rs = [-2, -1, 0, 1, 1.5, 3]
+    for a in (1, -2, 0.5):
+        for r1, r2, r3 in itertools.combinations_with_replacement(rs, 3):
+            p = np.poly([r1, r2, r3]) * a
+            got = np.atleast_1d(um.roots(list(p)))
+            ok = all(min(abs(g - r) for g in got) < 1e-6 for r in (r1, r2, r3)) and all(abs(np.polyval(p, g)) < 1e-6 * (1 + abs(g)) ** 3 for g in got)
+            ctx.ensure("cubic:all-roots-returned", ok, witness=dict(coefficients=list(p), roots=(r1, r2, r3), got=[complex(g) for g in got]))
+        for re, im, r in [(0, 1, 1), (1, 2, -1), (-1, 0.5, 2), (2, 3, 0)]:
+            p = np.real(np.poly([complex(re, im), complex(re, -im), r])) * a
+            got = np.atleast_1d(um.roots(list(p)))
+            ok = all(min(abs(g - z) for g in got) < 1e-6 for z in (complex(re, im), complex(re, -im), r))
+            ctx.ensure("cubic:complex-pair", ok, witness=dict(coefficients=list(p), got=[complex(g) for g in got]))
+    rng = np.random.default_rng(5)
+    for n in (2, 3, 4):
+        for N in (63, 64, 100):
+            base = rng.integers(-3, 4, size=(N, n, n)).astype(float) + np.eye(n) * 13  # strictly diagonally dominant: regular
+            for scale in (1.0, 0.002, 1e-5 if n == 2 else 0.01):
+                A = base * scale
+                try:
+                    W = um.inv(A)
+                    ok = np.allclose(np.matmul(W, A), np.eye(n), atol=1e-6)
+                    got = "ok" if ok else "wrong"
+                except np.linalg.LinAlgError as e:
+                    ok, got = False, "LinAlgError: %s" % e
+                ctx.ensure("inv:well-conditioned-batches-both-sides-of-64", ok, witness=dict(n=n, batch=N, scale=scale, got=got))
+                d = um.det(A)
+                ctx.ensure("det:agrees-with-numpy", np.allclose(d, np.linalg.det(A), rtol=1e-7, atol=1e-300), witness=dict(n=n, batch=N, scale=scale))
+                adj = um.adjugate(A)
+                ctx.ensure("adjugate:A.adj(A)==det.I", np.allclose(np.matmul(A, adj), d[:, None, None] * np.eye(n), rtol=1e-7, atol=1e-9 * float(np.abs(A).max()) ** n), witness=dict(n=n, batch=N, scale=scale))
+    mats = [np.array([[1, 2, 3], [2, 4, 6]]), np.array([[1, 0, 0, 1], [0, 1, 0, 1]]), np.array([[1, 2, 3, 4]]), np.array([[1, 0, 2], [0, 1, 1], [1, 1, 3]])]
+    for Mx in mats:
+        rk = np.linalg.matrix_rank(Mx)
+        Q = um.null_space(Mx)
+        ctx.ensure("null_space:orthonormal-basis-of-the-kernel", Q.shape == (Mx.shape[1], Mx.shape[1] - rk) and np.allclose(Mx @ Q, 0, atol=1e-9) and np.allclose(Q.T @ Q, np.eye(Q.shape[1]), atol=1e-9),
+                   witness=dict(matrix=Mx.tolist(), got=Q.tolist()))
+        Qd = um.null_space(Mx, Mx.shape[1] - rk)
+        ctx.ensure("null_space(dim):orthonormal-basis-of-the-kernel", np.allclose(Mx @ Qd, 0, atol=1e-9) and np.allclose(Qd.T @ Qd, np.eye(Qd.shape[1]), atol=1e-9), witness=dict(matrix=Mx.tolist()))
+        U = um.orth(Mx)
+        ctx.ensure("orth:orthonormal-basis-of-the-range", U.shape == (Mx.shape[0], rk) and np.allclose(U.T @ U, np.eye(rk), atol=1e-9) and np.linalg.matrix_rank(np.hstack([U, Mx])) == rk,
+                   witness=dict(matrix=Mx.tolist(), got=U.tolist()))
